@@ -124,3 +124,20 @@ UNITS.append(dict(
     functions=[dict(name='add_list_to_client', file=POL, status='bounded', contract='appends exactly the send/receive/own rules in list order; user/group rules are not per-connection'),
                dict(name='bus_client_policy_append_rule', file=POL, status='stub', note='records the appended rule; may fail (OOM)')],
     assumptions=[]))
+
+UNITS.append(dict(name='C06.reload', props=['C06', 'C13'], kind='B', route='stub', bus=True, unwindset=['process_config_every_time.0:4'],
+    bounds={'listening_servers': 2, 'note': 'only the address-building loop is bounded; the policy/limits/activation order clauses do not depend on it'},
+    tus=[dict(file='bus/bus.c', include_as='VERIF_TU')], harness='harness/c06_reload.c',
+    replace_calls={'_dbus_string_init': 'verif_stub_string_init', '_dbus_string_free': 'verif_stub_string_free', '_dbus_string_get_length': 'verif_stub_string_get_length',
+                   '_dbus_string_append': 'verif_stub_string_append', '_dbus_string_copy_data': 'verif_stub_string_copy_data',
+                   'bus_config_parser_get_limits': 'verif_stub_get_limits', 'bus_policy_unref': 'verif_stub_policy_unref',
+                   'bus_config_parser_steal_policy': 'verif_stub_steal_policy', 'bus_connections_reload_policy': 'verif_stub_reload_policy',
+                   '_dbus_list_get_last_link': 'verif_stub_list_get_last_link',
+                   'dbus_server_get_address': 'verif_stub_server_get_address', 'dbus_free': 'verif_stub_dbus_free', '_dbus_strdup': 'verif_stub_strdup',
+                   'bus_config_parser_get_service_dirs': 'verif_stub_get_service_dirs', 'bus_config_parser_get_servicehelper': 'verif_stub_get_servicehelper',
+                   'bus_activation_reload': 'verif_stub_activation_reload', 'bus_activation_new': 'verif_stub_activation_new', 'dbus_set_error': 'verif_stub_dbus_set_error'},
+    allow_skip_msg=True, timeout=600, expect_s=10, must_have=['reload.post2'],
+    functions=[dict(name='process_config_every_time', file='bus/bus.c', status='enforced', contract='new policy installed before existing connections are re-evaluated; old policy released once; limits/activation from this parser'),
+               dict(name='bus_connections_reload_policy', file='bus/connection.c', status='stub', note='contract: rebuilds every completed connection\'s client policy from context->policy (the C06.create_client_policy unit covers the per-connection build)'),
+               dict(name='bus_config_parser_*', file='bus/config-parser.c', status='assumed', note='config parsing is not under contract')],
+    assumptions=['bus_connections_reload_policy rebuilds each client policy from context->policy as it is at the time of the call']))
